@@ -107,3 +107,22 @@ pub proof fn lemma_prefix_push(a: Ins, b: Ins, c: Ins)
 {
     assert(c.take(a.len() as int) =~= b.take(a.len() as int));
 }
+/// the shape of a compiled list comprehension starting at n0 (st: Iterate, en: the instruction Iterate exits to, c: the condition's jump)
+pub open spec fn comp_shape(n0: int, ins: Ins, has_cond: bool, st: int, en: int, c: int) -> bool {
+    &&& n0 < st && st + 2 < en && en + 1 == ins.len()
+    &&& ins[n0].0 == Instruction::BuildList(0)
+    &&& ins[st].0 == Instruction::Iterate(en as usize)
+    &&& ins[en - 2].0 == Instruction::AppendToList
+    &&& ins[en - 1].0 == Instruction::Jump(st as usize)
+    &&& ins[en].0 == Instruction::PopLoop
+    // a false condition skips the append and lands on the back-jump
+    &&& has_cond ==> st < c < en - 2 && ins[c].0 == Instruction::PopJumpIfFalse((en - 1) as usize)
+}
+/// transitivity as a broadcast fact, for arms that emit many instructions in a row
+pub broadcast proof fn lemma_prefix_trans_b(a: Ins, b: Ins, c: Ins)
+    requires #[trigger] prefix_of(a, b), #[trigger] prefix_of(b, c)
+    ensures prefix_of(a, c)
+{
+    lemma_prefix_trans(a, b, c);
+}
+pub proof fn lemma_prefix_refl(a: Ins) ensures prefix_of(a, a) { assert(a.take(a.len() as int) =~= a); }
